@@ -103,7 +103,17 @@ impl Display for Token {
             Token::Remark(comment) => write!(f, "REM{}", comment),
             Token::Symbol(name) => write!(f, "{}", name),
             Token::StringLiteral(string) => write!(f, "\"{}\"", string),
-            Token::NumericLiteral(number) => write!(f, "{}", number),
+            Token::NumericLiteral(number) => {
+                // Like Applesoft, list a fraction without its leading zero. A
+                // numeral can directly follow a symbol only if it starts with
+                // a decimal point (`A.5`); spelled `A 0.5` it would read back
+                // as the symbol `A0` followed by `.5`.
+                let string = number.to_string();
+                match string.strip_prefix("0.") {
+                    Some(fraction) => write!(f, ".{}", fraction),
+                    None => write!(f, "{}", string),
+                }
+            }
             Token::Data(elements) => write!(f, "DATA {}", data_elements_to_string(elements)),
         }
     }
